@@ -810,7 +810,10 @@ func expectErr(k string, e *errSpec, o *objX) string {
 	case "plain", "plainfmt", "ptr", "detail":
 		o.put(k, xstr(uni(e.Msg)))
 		return ""
-	case "verbose":
+	case "joined":
+		o.put(k, xstr(uni(e.Msg+"\njoined")))
+		return ""
+	case "verbose", "wrapmany-verbose":
 		o.put(k, xstr(uni(e.Msg)))
 		o.put(k+"Verbose", xstr(uni(e.Msg+"\nverbose\t\"x\"")))
 		return ""
